@@ -185,26 +185,40 @@ pub async fn reflink_async(cache: &Path, sri: &Integrity, to: &Path) -> Result<(
 /// earlier `hard_link`, or the target of a `link_to` entry), copying would
 /// truncate the source before reading it. Returns the length of the file in
 /// that case: the data is where the caller wants it already.
+///
+/// A destination that does not exist yet is a fresh one. Any other failure to
+/// look at either file is returned: not knowing whether the two are the same
+/// file, the copy must not go ahead and risk emptying its own source.
 #[cfg(unix)]
-fn already_in_place(cpath: &Path, to: &Path) -> Option<u64> {
+fn already_in_place(cpath: &Path, to: &Path) -> std::io::Result<Option<u64>> {
     use std::os::unix::fs::MetadataExt;
-    let from = std::fs::metadata(cpath).ok()?;
-    let dest = std::fs::metadata(to).ok()?;
+    let dest = match std::fs::metadata(to) {
+        Ok(dest) => dest,
+        Err(e) if e.kind() == std::io::ErrorKind::NotFound => return Ok(None),
+        Err(e) => return Err(e),
+    };
+    let from = std::fs::metadata(cpath)?;
     if from.is_file() && from.dev() == dest.dev() && from.ino() == dest.ino() {
-        Some(from.len())
+        Ok(Some(from.len()))
     } else {
-        None
+        Ok(None)
     }
 }
 
 #[cfg(not(unix))]
-fn already_in_place(_cpath: &Path, _to: &Path) -> Option<u64> {
-    None
+fn already_in_place(_cpath: &Path, _to: &Path) -> std::io::Result<Option<u64>> {
+    Ok(None)
 }
 
 pub fn copy_unchecked(cache: &Path, sri: &Integrity, to: &Path) -> Result<u64> {
     let cpath = path::content_path(cache, sri);
-    if let Some(len) = already_in_place(&cpath, to) {
+    if let Some(len) = already_in_place(&cpath, to).with_context(|| {
+        format!(
+            "Failed to copy cache contents from {} to {}",
+            cpath.display(),
+            to.display()
+        )
+    })? {
         return Ok(len);
     }
     std::fs::copy(cpath, to).with_context(|| {
@@ -245,7 +259,13 @@ pub async fn copy_unchecked_async<'a>(
     to: &'a Path,
 ) -> Result<u64> {
     let cpath = path::content_path(cache, sri);
-    if let Some(len) = already_in_place(&cpath, to) {
+    if let Some(len) = already_in_place(&cpath, to).with_context(|| {
+        format!(
+            "Failed to copy cache contents from {} to {}",
+            cpath.display(),
+            to.display()
+        )
+    })? {
         return Ok(len);
     }
     crate::async_lib::copy(&cpath, to).await.with_context(|| {
